@@ -353,6 +353,26 @@ def build(T, tree, pfx="L"):
         for (A, R), m in zip(subs, mults):
             blocks += [R] * m
         return ops.BlockDiag(*[s[0] for s in subs], multiplicities=list(mults)), ref_blockdiag(T, blocks)
+    if kind == "dupsum":
+        # a sum in which the SAME operator object occurs more than once: ["dupsum", via, sub, other | None]  ->  A + other + A  (A + A without other)
+        _, via, sub, other = tree
+        A, R = build(T, sub, pfx + "u")
+        terms, Rs = [A], [R]
+        if other is not None:
+            B, RB = build(T, other, pfx + "o")
+            terms.append(B)
+            Rs.append(RB)
+        terms.append(A)
+        Rs.append(R)
+        Rt = Rs[0]
+        for r in Rs[1:]:
+            Rt = ref_add(T, Rt, r)
+        if via == "ctor":
+            return ops.Sum(*terms), Rt
+        op = terms[0]
+        for t_ in terms[1:]:
+            op = op + t_
+        return op, Rt
     if kind == "pair":
         # product of two wrappers of the SAME operator object: ["pair", w1, w2, sub], w in I / T / H / Tc / Hc
         _, w1, w2, sub = tree
@@ -398,6 +418,8 @@ def build(T, tree, pfx="L"):
 
 def tree_shape(tree):
     k = tree[0]
+    if k == "dupsum":
+        return tree_shape(tree[2])
     if k == "dense":
         return (tree[1], tree[2])
     if k in ("tri", "scalar", "identity", "diag", "tridiag", "householder", "selfadj", "psd", "fft"):
@@ -453,6 +475,8 @@ def tree_name(tree):
         return f"{k}({tree_name(tree[1])})"
     if k == "pair":
         return f"pair{tree[1]}{tree[2]}({tree_name(tree[3])})"
+    if k == "dupsum":
+        return f"dupsum-{tree[1]}({tree_name(tree[2])}" + ("," + tree_name(tree[3]) if tree[3] is not None else "") + ")"
     if k in ("product", "sum", "kron", "kronsum"):
         return f"{k}(" + ",".join(tree_name(t) for t in tree[1:]) + ")"
     if k == "blockdiag":
